@@ -74,10 +74,12 @@ fn pool(rng: &mut Rng, s2: usize, norm: bool) -> Vec<HV> {
 }
 
 fn build_any<T: HashLike>(v: &HV, how: u64) -> T {
-    match how % 3 {
+    match how % 5 {
         0 => T::build(v),
         1 => T::parse_bytes(v.text().as_bytes()).expect("valid text refused"),
-        _ => T::build_dirty(v),
+        2 => T::build_dirty(v),
+        // through a conversion into a destination that still holds a longer value
+        _ => T::build_conv(v, how / 5).unwrap_or_else(|| T::build_dirty(v)),
     }
 }
 
@@ -212,7 +214,7 @@ pub fn run(o: &Opts) -> i32 {
         o,
         rr,
         Report {
-            rule: "per type (all six): pools of 5..8 closely related values (trailing symbol-0 'A' tails, proper prefixes, single-symbol changes, lengthened runs sharing a normalization, swapped block hashes, other block sizes), objects built through different routes (checked constructor, parser, re-initialisation of an object that held a longer value). All ordered pairs: == iff equal texts, equal => identical Hasher input, cmp antisymmetric, Equal iff ==, PartialOrd and operators consistent, cmp = documented key order from the abstract model O8 (dual: order of the normalized parts when they differ, axioms only when they coincide); all triples: transitivity; sort() of shuffled vectors of 500 follows the documented order. Non-trivial = pair sharing block size and first symbol; distinct by (type, pair).".into(),
+            rule: "per type (all six): pools of 5..8 closely related values (trailing symbol-0 'A' tails, proper prefixes, single-symbol changes, lengthened runs sharing a normalization, swapped block hashes, other block sizes), objects built through different routes (checked constructor, parser, re-initialisation of an object that held a longer value, conversions - widening, narrowing, raw reinterpretation, dual expansion - into destinations that still hold a longer value). All ordered pairs: == iff equal texts, equal => identical Hasher input, cmp antisymmetric, Equal iff ==, PartialOrd and operators consistent, cmp = documented key order from the abstract model O8 (dual: order of the normalized parts when they differ, axioms only when they coincide); all triples: transitivity; sort() of shuffled vectors of 500 follows the documented order. Non-trivial = pair sharing block size and first symbol; distinct by (type, pair).".into(),
             assumptions: vec![],
             exhaustive: false,
             min_nontrivial: 5000 * o.scale_pct / 100,
